@@ -72,10 +72,10 @@ func NewW(prop, tier string, seed int64, shard, nshards int, outDir string) *W {
 	fmt.Fprintf(h, "%s/%d/%d", prop, shard, nshards)
 	w := &W{
 		Prop: prop, Tier: tier, Seed: seed, Shard: shard, NShards: nshards,
-		Rng:    rand.New(rand.NewPCG(uint64(seed), h.Sum64())),
-		OutDir: outDir,
-		hashes: map[uint64]struct{}{},
-		viols:  map[string]*Violation{},
+		Rng:     rand.New(rand.NewPCG(uint64(seed), h.Sum64())),
+		OutDir:  outDir,
+		hashes:  map[uint64]struct{}{},
+		viols:   map[string]*Violation{},
 		maxSamp: 4,
 	}
 	w.res.Prop = prop
